@@ -628,45 +628,58 @@ def run(ctx: Ctx):
                       "successful put and one take (sequential), resp. at least two context switches (schedules)")
 
 
-EXPLORE = [  # (maxSize, programs, exhaustive in quick?)  - every program terminates on a correct queue under every schedule
-    (4, "-/d/c", True), (1, "-/q1/d", True), (1, "-/q1,c/d", True), (1, "-/q1,q2/c", False), (1, "-/q1,q2/d,d", False),
-    (1, "-/e/t1", True), (2, "-/f1,c/y", False), (1, "-/q1/q2/d,d", False), (1, "-/d/d/q1,c", False), (2, "-/q1,q3/d/c", False),
-    (1, "-/q1/d/c", False), (1, "-/q1,q2,q3/d,d,d", False),
+EXPLORE = [
+    # (maxSize, programs, preemption bound in quick, in thorough; None = EVERY schedule).  Every program terminates on a correct queue under
+    # every schedule.  With a bound K the harness enumerates every schedule with at most K preemptions (choosing another thread, or a time-out,
+    # while the thread that ran last is still enabled); which thread runs when the current one blocks/finishes and which sleeper a notify_one
+    # wakes are free choices (harness/c10_queues.cpp `bq explore`).
+    (4, "-/d/c", None, None), (1, "-/q1/d", None, None), (1, "-/e/t1", None, None), (1, "-/q1,q2/c", None, None),
+    (1, "-/q1,c/d", 2, None), (2, "-/f1,c/y", 2, None), (1, "-/q1,q2/d,d", 2, None), (1, "-/q1,q2,q3/d,d,d", 2, 3),
+    (1, "-/q1/q2/d,d", 1, 2), (1, "-/d/d/q1,c", 1, 2), (2, "-/q1,q3/d/c", 0, 2), (1, "-/q1/d/c", 0, 2),
+    # several waiters parked on ONE condition variable with room for several items (maxSize >= 2): a put/take that skips its notify_one because
+    # "the queue was not empty/full" strands the second waiter (seeded change C10-a and its producer-side mirror) - visible with 0 preemptions
+    (2, "-/q1,q2/d/d", 1, 2), (2, "-/q1/q2/d/d", 0, 1), (3, "-/q1,q2,q3/d/d/d", 0, 0), (2, "-/q1,q2,c/d/d", 0, 1),
+    (2, "-/t1,t2/q3/q4/d,d", 0, 1), (2, "-/t1,t2,d,d/q3/q4", 1, 2), (2, "-/e/e/q1,q2", 0, 1),
 ]
 
 
 def run_explore(ctx, hb, quick, dist):
-    """Exhaustive (or budget-bounded, depth-first) enumeration of ALL schedules of small programs on the real class: DetSched records
-    the alternatives of every decision; the harness walks the whole tree and judges every leaf with the implementation-only monitors."""
+    """Systematic enumeration of the schedules of small programs on the real class (all of them, or all with at most K preemptions):
+    DetSched records the alternatives of every decision; the harness walks the tree depth-first, completing every prefix without
+    preemptions, and judges every leaf with the implementation-only monitors."""
     lines = []
-    for cap, progs, small in EXPLORE:
-        budget = (3000 if small else 400) if quick else 6000
-        lines.append("bq explore %d %s %d" % (cap, progs, budget))
+    bounds = []
+    for cap, progs, kq, kt in EXPLORE:
+        k = kq if quick else kt
+        bounds.append(k)
+        lines.append("bq explore %d %s %d%s" % (cap, progs, 3000 if quick else 12000, "" if k is None else " %d" % k))
     out, rc, err = ctx.run_lines([hb], lines, timeout=3000)
     total = 0
     complete = 0
-    for (cap, progs, small), l in zip(EXPLORE, out + ["crash:rc=%s" % rc] * (len(lines) - len(out))):
-        m = re.match(r"explored=(\d+) complete=([01]) deadlocks=(\d+) bad=(\d+) maxn=(\d+) outcomes=(\d+) maxlen=(\d+) first=(\S+)$", l)
+    for (cap, progs, _, _), k, line, l in zip(EXPLORE, bounds, lines, out + ["crash:rc=%s" % rc] * (len(lines) - len(out))):
+        m = re.match(r"explored=(\d+) bound=(\S+) complete=([01]) deadlocks=(\d+) bad=(\d+) maxn=(\d+) outcomes=(\d+) maxlen=(\d+) first=(\S+)$", l)
         if not m:
-            ctx.violation("property", "Q: exhaustive schedule exploration of `%s` crashed the harness: %s" % (progs, l[:200]),
-                          {"ops": ["bq explore %d %s 1000" % (cap, progs)], "observed": [l, err[-500:]]}, found_input=True)
+            ctx.violation("property", "Q: schedule enumeration of `%s` crashed the harness: %s" % (progs, l[:200]),
+                          {"ops": [line], "observed": [l, err[-500:]]}, found_input=True)
             break
-        n, comp, dl, bad = int(m.group(1)), int(m.group(2)), int(m.group(3)), int(m.group(4))
+        n, comp, dl, bad = int(m.group(1)), int(m.group(3)), int(m.group(4)), int(m.group(5))
         total += n
         complete += comp
         dist["explore:schedules"] += n
+        dist["explore:bound=%s" % m.group(2)] += 1
         ctx.cov["traces_validated_against_impl"] += n
-        ctx.count_case("explore:%d:%s:%d" % (cap, progs, n), nontrivial=True)
+        ctx.count_case("explore:%d:%s:%s:%d" % (cap, progs, m.group(2), n), nontrivial=True)
         ctx.cov["evaluations"] += n - 1
         if bad:
-            why, _, ch = m.group(8).partition("@")
+            why, _, ch = m.group(9).partition("@")
             ops = ["bq sched %d %s ch:%s 8 0" % (cap, progs, ch)]
-            ctx.violation("property", "%s: %d of %d schedules of the program `%s` (maxSize %d) violate the property on the real class; first: %s"
-                          % ("Q3/Q4" if dl else "Q1/Q2", bad, n, progs, cap, why.replace("_", " ")),
+            ctx.violation("property", "%s: %d of the %d enumerated schedules (%s) of the program `%s` (maxSize %d) violate the property on the real class; first: %s"
+                          % ("Q3/Q4" if dl else "Q1/Q2", bad, n, "all schedules" if k is None else "at most %d preemptions" % k, progs, cap, why.replace("_", " ")),
                           {"ops": ops, "program": [[] if p == "-" else p.split(",") for p in progs.split("/")[1:]], "maxSize": cap,
-                           "schedule_choices": [int(x) for x in ch.split(",")] if ch else [], "observed": [l]}, found_input=True)
+                           "schedule_choices": [int(x) for x in ch.split(",")] if ch else [], "observed": [l], "enumeration": line},
+                          found_input=True, cls="property:enumeration")
     ctx.extra["explore_schedules_enumerated"] = total
-    ctx.extra["explore_programs_exhausted"] = "%d of %d" % (complete, len(EXPLORE))
+    ctx.extra["explore_programs_exhausted"] = "%d of %d enumerations complete (all schedules, or all schedules within the stated preemption bound)" % (complete, len(EXPLORE))
 
 
 def run_tsan(ctx, ms, dist):
